@@ -36,6 +36,9 @@ type batchSpec struct {
 	Timeout    time.Duration
 	KeepBroken bool     // do not drop units that fail to build (C13 judges them)
 	NoAvoid    []string // avoidance switches to turn off (pinned replays of open findings)
+	// ServerOnlyEvery > 0 (variant "both" only): every n-th unit is built from protoc-gen-go-http alone, the
+	// layout of a project that does not use the Go client; inner checks that need a client skip such units.
+	ServerOnlyEvery int
 }
 
 type batchOutcome struct {
@@ -72,7 +75,12 @@ func runBatch(c *core.Ctx, spec *batchSpec) (*batchOutcome, error) {
 		if spec.ParamFor != nil {
 			param = spec.ParamFor(s)
 		}
-		u, err := w.Add(s, param, i%2 == 1)
+		uv := ""
+		if n := spec.ServerOnlyEvery; n > 0 && (spec.Variant == "" || spec.Variant == "both") && i%n == n-1 {
+			uv = "server"
+			c.Ev.Class("build:server_only_unit", 1)
+		}
+		u, err := w.AddVariant(s, param, i%2 == 1, uv)
 		if err != nil {
 			return nil, err
 		}
@@ -240,7 +248,13 @@ func reportInner(c *core.Ctx, spec *batchSpec, out *batchOutcome, label string) 
 			continue
 		}
 		if r.Failed {
-			doc := &innerReplay{Property: c.Prop, Kind: "inner", Variant: spec.Variant, Param: spec.Param, Check: r.Check, Unit: r.Unit,
+			variant := spec.Variant
+			for _, u := range out.Units {
+				if u.Schema.ID == r.Schema && u.Variant != "" {
+					variant = u.Variant
+				}
+			}
+			doc := &innerReplay{Property: c.Prop, Kind: "inner", Variant: variant, Param: spec.Param, Check: r.Check, Unit: r.Unit,
 				Cases: spec.Cases, Seed: spec.seed(c), Schema: byID[r.Schema], Extra: spec.Extra, Observed: r.Message}
 			c.Violation(r.Check+"-"+r.Schema+"-"+r.Unit, doc, fmt.Sprintf("[%s %s/%s] %s", r.Check, r.Schema, r.Unit, firstFailLine(r.Message)))
 		}
